@@ -1,4 +1,6 @@
+import MuscleModel.Engines.Filter
 import MuscleModel.Engines.Msg
+import MuscleModel.Engines.Pulse
 import MuscleModel.Engines.Queue
 import MuscleModel.Engines.RWMutex
 import MuscleModel.Engines.Srv
@@ -17,7 +19,9 @@ partial def loop (h : IO.FS.Stream) (out : IO.FS.Stream) (e : Engine) (s : e.σ)
   loop h out e s'
 
 def engines : List (String × Engine) := [
+  ("qf", FilterEngine.engine),
   ("msg", MsgEngine.engine),
+  ("pn", PulseEngine.engine),
   ("q", QueueEngine.engine),
   ("rw", RWEngine.engine),
   ("srv", SrvEngine.engine),
